@@ -108,4 +108,18 @@ def removedIn : List Op → List Nat
   | .remove n :: os => n :: removedIn os
   | _ :: os => removedIn os
 
+/-- the value a creating operation is given -/
+def Op.createdValue : Op → Option Int
+  | .pushFront v | .pushBack v | .insertBefore v _ | .insertAfter v _ => some v
+  | _ => none
+
+/-- the nodes created during a history: (identity handed out, value given), `fresh` being the
+identity the first creating operation hands out -/
+def createdIn (fresh : Nat) : List Op → List (Nat × Int)
+  | [] => []
+  | o :: os =>
+    match Op.createdValue o with
+    | some v => (fresh, v) :: createdIn (nextFresh fresh o) os
+    | none => createdIn (nextFresh fresh o) os
+
 end Juniper.Spec.XList
